@@ -730,7 +730,17 @@ def check_big(n, ss, acc):
     sh = R.shape(f0)
     L = R.num_labellings(sh)
     seen = {}
-    for l in sorted({0, min(1, L - 1), min(2, L - 1), L // 3, L // 2, max(0, L - 2), L - 1}):
+    ls = {0, min(1, L - 1), min(2, L - 1), L // 3, L // 2, max(0, L - 2), L - 1}
+    # odd label ranks just beyond what a double holds exactly (2**53 and up): integer arithmetic that
+    # strays through floating point loses their last bits
+    for k in (53, 54, 56, 60, 63, 64, 70, 80):
+        for d in (1, -1, 3):
+            if 0 <= 2 ** k + d < L:
+                ls.add(2 ** k + d)
+    if L > 2 ** 54:
+        ls.add(L - 1 - 2 ** 53)
+        ls.add((L // 2) | 1)
+    for l in sorted(ls):
         acc.ev(1, True)
         got = expect_valueerror(lambda: tskit.Tree.unrank(n, (s, l)))
         if got[0] != "ok":
